@@ -18,7 +18,7 @@ from openhtf.core import base_plugs
 PROPERTY = 'C18'
 LEVEL = 'model_checking'
 EXPLANATION = ('bounded model checking of the sequentialised real functions: every schedule with at most K preemptions '
-               '(statement granularity) is one path; CrossHair/z3 exhausts the path tree')
+               '(statement granularity) is one path; CrossHair/z3 exhausts the path tree (quick tier: schedule ints compared symbolically at every step; thorough tier: pinned by bisection, the pinned schedule runs natively)')
 
 _ORIG = Z.encode_methods(htf_util.SubscribableStateMixin, ['asdict_with_event', 'notify_update'],
                          {'threading': prims.threading})
